@@ -102,7 +102,7 @@ func harvestLiterals(root string) [][]byte {
 		}
 		ast.Inspect(f, func(n ast.Node) bool {
 			if cl, ok := n.(*ast.CompositeLit); ok {
-				if b, ok := literalBytes(cl); ok && len(b) >= 8 && len(b) <= 70000 {
+				if b, ok := literalBytes(cl); ok && len(b) >= 4 && len(b) <= 70000 {
 					out = append(out, b)
 				}
 			}
@@ -136,11 +136,15 @@ func harvestCaptures(root string) (out [][]byte, links []layers.LinkType) {
 					return
 				}
 				for n < 300 {
-					d, _, err := r.ReadPacketData()
+					d, ci, err := r.ReadPacketData()
 					if err != nil {
 						return
 					}
-					out, links = append(out, d), append(links, r.LinkType())
+					lt := r.LinkType()
+					if ifc, err := r.Interface(ci.InterfaceIndex); err == nil {
+						lt = ifc.LinkType // a section may hold interfaces of several link types
+					}
+					out, links = append(out, d), append(links, lt)
 					n++
 				}
 				return
@@ -161,6 +165,26 @@ func harvestCaptures(root string) (out [][]byte, links []layers.LinkType) {
 		return nil
 	})
 	return
+}
+
+// deepSeeds counts the seeds of t that decode into at least two layers that are not error layers.
+func (c *Corpus) deepSeeds(t gopacket.LayerType) int {
+	deep := 0
+	for _, b := range c.Seeds[t] {
+		n := 0
+		vlib.Guard(func() {
+			p := gopacket.NewPacket(b, t, gopacket.DecodeOptions{NoCopy: true})
+			for _, l := range p.Layers() {
+				if _, isErr := l.(gopacket.ErrorLayer); !isErr && l.LayerType() != gopacket.LayerTypeDecodeFailure && l.LayerType() != gopacket.LayerTypePayload {
+					n++
+				}
+			}
+		})
+		if n >= 2 {
+			deep++
+		}
+	}
+	return deep
 }
 
 func addr(b []byte) uintptr { return uintptr(unsafe.Pointer(unsafe.SliceData(b))) }
@@ -224,7 +248,9 @@ func Build(repo string) *Corpus {
 	}
 	for i, b := range caps {
 		c.All = append(c.All, b)
-		c.addDecoded(b, links[i].LayerType())
+		if c.addDecoded(b, links[i].LayerType()) < 2 && links[i].LayerType() != layers.LayerTypeEthernet {
+			c.addDecoded(b, layers.LayerTypeEthernet)
+		}
 	}
 	for _, b := range Constructed(vlib.NewRand(12345), 400) {
 		c.All = append(c.All, b)
@@ -260,6 +286,73 @@ func Build(repo string) *Corpus {
 			withSeeds++
 		}
 	}
+	// types the fixtures never reach: search a fixed PRNG sequence of short inputs for ones whose first layer decodes as
+	// t, preferring those that get furthest (most layers in front of a failure) - prefixes and mutations of these walk
+	// the failure point through every layer boundary the decoder chain has
+	discovered := 0
+	for _, t := range c.Types {
+		if c.deepSeeds(t) >= 4 || t == gopacket.LayerTypeDecodeFailure || t == gopacket.LayerTypePayload || t == gopacket.LayerTypeFragment || t == gopacket.LayerTypeZero {
+			continue
+		}
+		r := vlib.NewRand(uint64(t)*7919 + 17)
+		type cand struct {
+			b []byte
+			n int
+		}
+		var cands []cand
+		for try := 0; try < 4000; try++ {
+			var b []byte
+			switch try % 4 {
+			case 0:
+				b = r.Bytes(r.Range(1, 64))
+			case 1: // small values: versions, types and lengths that decoders switch on
+				b = make([]byte, r.Range(4, 48))
+				for i := range b {
+					b[i] = byte(r.Intn(16))
+				}
+			case 2:
+				b = make([]byte, r.Range(4, 96))
+				for i := 0; i < 6 && i < len(b); i++ {
+					b[r.Intn(len(b))] = r.Byte()
+				}
+			default:
+				b = r.Bytes(r.Range(1, 16))
+				b = append(b, make([]byte, r.Intn(48))...)
+			}
+			n := 0
+			vlib.Guard(func() {
+				p := gopacket.NewPacket(b, t, gopacket.DecodeOptions{NoCopy: true})
+				ls := p.Layers()
+				if len(ls) == 0 || ls[0].LayerType() != t {
+					return
+				}
+				for _, l := range ls {
+					if _, isErr := l.(gopacket.ErrorLayer); !isErr && l.LayerType() != gopacket.LayerTypeDecodeFailure && l.LayerType() != gopacket.LayerTypePayload {
+						n++
+					}
+				}
+			})
+			if n > 0 {
+				cands = append(cands, cand{b, n})
+			}
+		}
+		sort.SliceStable(cands, func(a, b int) bool { return cands[a].n > cands[b].n })
+		for i := 0; i < len(cands) && i < 8; i++ {
+			if cands[i].n < 2 && len(c.Seeds[t]) > 0 {
+				break // one-layer inputs add nothing to the seeds the type already has
+			}
+			c.Seeds[t] = append(c.Seeds[t], cands[i].b)
+			discovered++
+		}
+	}
+	c.Stats["seeds_discovered_by_search"] = discovered
+	withAny := 0
+	for _, t := range c.Types {
+		if len(c.Seeds[t]) > 0 {
+			withAny++
+		}
+	}
+	c.Stats["layer_types_with_any_seed"] = withAny
 	c.Stats["registered_layer_types"] = len(c.Types)
 	c.Stats["layer_types_with_fixture_seeds"] = withSeeds
 	return c
